@@ -1654,6 +1654,7 @@ func init() {
 					return walk(v, 0)
 				}
 				via := map[*ssa.BasicBlock]bool{}
+				overwrite := ""
 				for _, b := range fn.Blocks {
 					for _, ins := range b.Instrs {
 						st, ok := ins.(*ssa.Store)
@@ -1670,11 +1671,20 @@ func init() {
 						}
 						if dependsOnFreq(st.Val) {
 							via[b] = true
+							// an entry that may exist already (not allocated on this path) is ADDED to
+							if _, fresh := fa.X.(*ssa.Alloc); !fresh && !addsToOwnField(st.Val, fa) {
+								overwrite = c.pos(st.Pos())
+							}
 						}
 					}
 				}
 				if len(via) == 0 {
 					continue // uses Frequency() for something else (e.g. statistics)
+				}
+				if overwrite != "" {
+					n++
+					r.bad(fnName(fn)+"/frequency-on-every-path", fnName(fn), c.pos(fn.Pos()), "the frequency of an entry that may exist already is overwritten at "+overwrite+" with this term's Frequency() instead of being added to: a field name repeated in one document keeps the frequency of its last instance only")
+					continue
 				}
 				n++
 				key := fnName(fn) + "/frequency-on-every-path"
@@ -1806,4 +1816,94 @@ func segmentHeld(v ssa.Value) bool {
 	}
 	owner, _ := fieldAddrInfo(fa)
 	return owner != nil && owner.Obj().Name() == "Segment"
+}
+
+// addsToOwnField: v is old + something, old being a load of the same field of
+// the same object the value is stored to.
+func addsToOwnField(v ssa.Value, dst *ssa.FieldAddr) bool {
+	bin, ok := stripConv(v).(*ssa.BinOp)
+	if !ok || bin.Op != token.ADD {
+		return false
+	}
+	for _, side := range []ssa.Value{bin.X, bin.Y} {
+		if ld, ok := stripConv(side).(*ssa.UnOp); ok && ld.Op == token.MUL {
+			if fa, ok := ld.X.(*ssa.FieldAddr); ok && fa.Field == dst.Field && fa.X == dst.X {
+				return true
+			}
+		}
+	}
+	return false
+}
+
+func init() {
+	register(&Rule{
+		Name:   "VALUE-RECORD-COMPLETE",
+		Floor:  0,
+		ZeroOK: true,
+		Doc:   "the function that encodes the stored values of one field (it is handed the meta encoder as a function value) emits the same meta entries - field id, offset, length - for every value it is given: no path through one iteration of its loop over the values returns to the loop having called the meta encoder fewer times than another (an empty value is a value: skipping it shifts nothing in the data section but removes it from what the reader reports)",
+		Run: func(c *Ctx, scope string, r *Report) {
+			n := 0
+			for _, fn := range c.srcFns {
+				var enc *ssa.Parameter
+				for _, p := range fn.Params {
+					if sig, ok := p.Type().Underlying().(*types.Signature); ok && sig.Params().Len() == 1 && sig.Params().At(0).Type().String() == "uint64" && sig.Results().Len() == 2 {
+						enc = p
+					}
+				}
+				if enc == nil {
+					continue
+				}
+				calls := func(b *ssa.BasicBlock) int {
+					k := 0
+					for _, ins := range b.Instrs {
+						if call, ok := ins.(*ssa.Call); ok && call.Call.Value == ssa.Value(enc) {
+							k++
+						}
+					}
+					return k
+				}
+				for _, h := range fn.Blocks {
+					if !isLoopHeader(h) {
+						continue
+					}
+					body := loopBody(h)
+					total := 0
+					for b := range body {
+						total += calls(b)
+					}
+					if total == 0 {
+						continue
+					}
+					n++
+					key := fnName(fn) + "/meta-entries-per-value"
+					paths, complete := iterPaths(h, h.Succs[0], body, 4000)
+					if !complete {
+						r.undecided(key, fnName(fn), c.pos(fn.Pos()), "too many paths through the per-value loop")
+						continue
+					}
+					first, bad := -1, ""
+					for _, p := range paths {
+						if p.exit {
+							continue
+						}
+						k := 0
+						for _, b := range p.blocks {
+							k += calls(b)
+						}
+						if first < 0 {
+							first = k
+						} else if k != first {
+							bad = fmt.Sprintf("one path through an iteration of the per-value loop calls the meta encoder %d times, another %d times (blocks %s): some values get no meta entry and are lost to the reader", first, k, blockList(p.blocks))
+						}
+					}
+					if bad != "" {
+						r.bad(key, fnName(fn), c.pos(fn.Pos()), bad)
+					} else {
+						r.ok(key, fnName(fn), c.pos(fn.Pos()), fmt.Sprintf("every value gets %d meta entries", first))
+					}
+				}
+			}
+			_ = n // a design without a meta-encoder callback has no such loop: nothing to check (controls keep the rule honest)
+		},
+	})
 }
